@@ -149,7 +149,7 @@ func genC17(env *core.Env, emit func(core.Case)) {
 					}
 					var tc *tls.Config
 					if callerECH || callerSN {
-						tc = &tls.Config{NextProtos: []string{"h2"}}
+						tc = &tls.Config{NextProtos: [][]string{{"h2"}, {"h3", "h2", "http/1.1"}, {"http/1.1", "h2"}}[(flags+si)%3]}
 						if callerECH {
 							tc.EncryptedClientHelloConfigList = bytes.Clone(callerList)
 						}
